@@ -137,6 +137,14 @@ def gate(prop_id, seed=1):
         fresh = [l for l in lines if l not in known]
         if fresh:
             new[f] = fresh
+    # confirmation before anything is reported: three further independent generations — a line is reported only if FIVE generations in a row never
+    # execute it (a rarely reached line must not raise an alarm on an unchanged tree; code that no case can reach stays unexecuted however often one looks)
+    for extra in (2000, 3000, 4000):
+        if not new:
+            break
+        unx = uncovered(prop_id, seed + extra, tools) or {}
+        new = {f: [l for l in lines if l in set(unx.get(f, lines))] for f, lines in new.items()}
+        new = {f: v for f, v in new.items() if v}
     return {"status": "new-unexecuted-lines" if new else "ok", "new": new, "unexecuted_now": {f: len(v) for f, v in un.items()},
             "baseline": {f: len(v) for f, v in base.items()}}
 
